@@ -122,7 +122,9 @@ Json gen_c10(sim::Rng &rng) {
     auto comment = [&]() {
         Json l = Json::object(); l["k"] = "c";
         std::string t = rng.chance(500) ? "c" : "#";
-        int len = rng.chance(50) ? (int) rng.range(900, 1015) : (int) rng.range(0, 30);
+        // content length up to 1022 = buffer size - 2 (the quantifier: lines shorter than the 1024-byte buffer);
+        // the last few lengths before the buffer fills are the interesting ones
+        int len = rng.chance(60) ? (rng.chance(500) ? (int) rng.range(1016, 1021) : (int) rng.range(900, 1021)) : (int) rng.range(0, 30);
         for (int i = 0; i < len; i++) t += (char) (" abcdefghij0123456789 e a p"[rng.below(27)]);
         l["t"] = t; return l;
     };
@@ -149,6 +151,10 @@ Json gen_c10(sim::Rng &rng) {
         else e["w"] = rng.chance(500) ? "0.5" : "1e2";
         Json sep = Json::array(); sep.push(blank()); sep.push(blank()); sep.push(blank()); e["sep"] = sep;
         if (rng.chance(60)) e["trail"] = " ";
+        else if (rng.chance(25)) {      // pad the edge line with blanks up to the last lengths that still fit the buffer
+            size_t target = (size_t) rng.range(1015, 1022), cur = render_line(e).size();
+            if (cur < target) e["trail"] = std::string(target - cur, rng.chance(800) ? ' ' : '\t');
+        }
         lines.push(e);
     }
     while (rng.chance(150)) lines.push(comment());
